@@ -1,8 +1,7 @@
 (* C03 — functional byte-level Model of bpf/dhcp_fastpath.c (dhcp_fastpath_prog) as coded, and of the
    Go side that writes the cache the program answers from (pkg/ebpf/loader.go marshalling,
    dhcp.PoolManager.AddPool, Loader.SetServerConfig, dhcp.Server.updateFastPathCache + the circuit-id
-   entry of handleRequest, the deletes of handleRelease / cleanupExpiredLeases, the missing delete of
-   handleDecline).
+   entry of handleRequest, the deletes of handleRelease / handleDecline / cleanupExpiredLeases).
 
    Part 1 (xdp): frame = list of bytes; every data_end comparison of the C source is an explicit length
    test; every access goes through [rd]/[upd], which fail with [OOB] outside the frame (never a default
@@ -20,15 +19,18 @@
           address goes out byte-reversed (raised when the word is not a palindrome)
      302  XDP_PASS after the headers were rewritten (build_dhcp_options / bpf_xdp_adjust_tail failure;
           the options-room test itself precedes the first write since commit c10bfec)
-     303  reply transmitted for a request whose IHL is not 5: checksum and lengths assume 20 bytes
+     (303: reply for a request whose IHL is not 5 - FIXED, parse_packet_headers now passes such frames)
      304  lease_expiry (Unix seconds) compared with bpf_ktime_get_ns()/1e9 (seconds since boot): the
           entry is expired on the Unix clock and still answered
-     305  DHCPDECLINE: the server drops the lease and leaves the cache entries in place
-     306  cleanupExpiredLeases removes the MAC entry only: the circuit-id entry stays
+     (305: DHCPDECLINE left the cache entries in place - FIXED, handleDecline deletes them)
+     (306: cleanupExpiredLeases left the circuit-id entry - FIXED by the C16 builder, commit 81d6b2b)
      307  REQUEST answered with ACK although it names another address than the cached one
           (the slow path answers NAK "IP mismatch")
      308  the fixed-offset message-type scan read a value that a TLV walk of the options does not
-          give (bytes inside another option's payload, or a type behind offset 6) *)
+          give (bytes inside another option's payload, or a type behind offset 6)
+     309  server_config.server_ip is zero (Server.Start did not write the entry: interface lookup
+          failed): the reply names the pool gateway as server identifier and an all-zero source MAC,
+          userspace names its configured server address *)
 From Coq Require Import NArith List Bool Lia.
 From Verif Require Import Base.Word.
 Import ListNotations.
@@ -126,6 +128,7 @@ Definition parse_l3 (f : bytes) (tagged : bool) (vid ivid : N) (voff : nat) (et 
   | Some proto, Some b0 =>
       if negb (proto =? 17) then NotDhcp else
       let ihl := N.land b0 15 in
+      if negb (ihl =? 5) then NotDhcp else       (* fix commit: IP options / bogus IHL go to the slow path *)
       let udp := (l3 + N.to_nat ihl * 4)%nat in
       if Nat.ltb (length f) (udp + 8) then NotDhcp else
       match rd f (udp + 2) 2 with
@@ -335,21 +338,21 @@ Definition requested_addr (f : bytes) (p : pkt) : option bytes :=
       end
   end.
 
-Definition tx_markers (m : maps) (f : bytes) (p : pkt) (mt : N) (yi sip : bytes) (pv : poolv)
+Definition tx_markers (m : maps) (f : bytes) (p : pkt) (mt : N) (yi sip cfgip : bytes) (pv : poolv)
            (expiry unow : N) : list N :=
   (if (m_origin m =? 0) &&
       (nonpal yi || nonpal sip || nonpal (pv_gw pv)
        || (negb (all_zero (pv_dns1 pv)) && (nonpal (pv_dns1 pv)
             || (negb (all_zero (pv_dns2 pv)) && nonpal (pv_dns2 pv)))))
    then [301] else []) ++
-  (if p_ihl p =? 5 then [] else [303]) ++
   (if expiry <? unow then [304] else []) ++
   (if mt =? 3 then
      match requested_addr f p with
      | Some r => if bytes_eqb r yi || bytes_eqb r (rev yi) then [] else [307]
      | None => []
      end else []) ++
-  (if tlv_msg_type (skipn (p_dhcp p + 240) f) =? mt then [] else [308]).
+  (if tlv_msg_type (skipn (p_dhcp p + 240) f) =? mt then [] else [308]) ++
+  (if all_zero cfgip then [309] else []).
 
 (* after the lookups succeeded: rewrite, options, lengths, checksum, tail.  [f] is the request. *)
 Definition reply (m : maps) (unow : N) (f : bytes) (p : pkt) (mt : N) (asg poolval cfg : bytes) (expiry : N) : res :=
@@ -384,7 +387,7 @@ Definition reply (m : maps) (unow : N) (f : bytes) (p : pkt) (mt : N) (asg poolv
                           | None => OOB
                           | Some f5 =>
                               let orig := N.of_nat (length f5) mod W16 in
-                              let mk := tx_markers m f p mt yi server_ip pv expiry unow in
+                              let mk := tx_markers m f p mt yi server_ip cfgip pv expiry unow in
                               if total =? orig then Done XDP_TX f5 mk else
                               (* delta = (int)total - (int)orig; new length = length + delta *)
                               if N.of_nat (length f5) + total <? orig then Done XDP_PASS f5 [302] else
@@ -501,7 +504,7 @@ Inductive gev :=
 | GConfig (mac ip : bytes) (ifindex : N)              (* Loader.SetServerConfig (what Server.Start does) *)
 | GAck (mac ip : bytes) (pool vlan class expiry : N) (cid : bytes)   (* handleRequest, ACK branch *)
 | GRelease (mac cid : bytes)                          (* handleRelease of an existing lease *)
-| GDecline (mac : bytes)                              (* handleDecline of an existing lease *)
+| GDecline (mac cid : bytes)                          (* handleDecline of an existing lease *)
 | GExpire (mac cid : bytes)                           (* cleanupExpiredLeases, one lease *)
 | GVlan (s c : N) (mac : bytes)                       (* Loader.AddVLANSubscriber with the subscriber's entry *)
 | GAge (d : N).                                       (* d seconds pass: every absolute expiry moves d closer *)
@@ -531,10 +534,14 @@ Definition cache_step (m : maps) (e : gev) : maps * list N :=
       (set_maps m (mdel (go_mac_key mac) (m_sub m)) (m_vlan m)
                 (match cid with [] => m_cid m | _ => mdel (go_cid_key cid) (m_cid m) end)
                 (m_pool m) (m_cfg m), [])
-  | GDecline mac => (m, if has (go_mac_key mac) (m_sub m) then [305] else [])
-  | GExpire mac cid =>
-      (set_maps m (mdel (go_mac_key mac) (m_sub m)) (m_vlan m) (m_cid m) (m_pool m) (m_cfg m),
-       match cid with [] => [] | _ => if has (go_cid_key cid) (m_cid m) then [306] else [] end)
+  | GDecline mac cid =>
+      (set_maps m (mdel (go_mac_key mac) (m_sub m)) (m_vlan m)
+                (match cid with [] => m_cid m | _ => mdel (go_cid_key cid) (m_cid m) end)
+                (m_pool m) (m_cfg m), [])
+  | GExpire mac cid =>                       (* since commit 81d6b2b the sweep deletes the circuit-id entry too *)
+      (set_maps m (mdel (go_mac_key mac) (m_sub m)) (m_vlan m)
+                (match cid with [] => m_cid m | _ => mdel (go_cid_key cid) (m_cid m) end)
+                (m_pool m) (m_cfg m), [])
   | GVlan s c mac =>
       match lookup (go_mac_key mac) (m_sub m) with
       | Some a => (set_maps m (m_sub m) (mput (le16b s ++ le16b c) a (m_vlan m)) (m_cid m) (m_pool m) (m_cfg m), [])
